@@ -9,7 +9,9 @@ SCHEMA = "/root/.vp/EVIDENCE.schema.json"
 
 
 def write(prop, tier, seed, level, coverage, assumptions, wall_s, violations):
-    d = os.path.join(env.VERIF_DIR, "evidence")
+    # seed evaluations (tools/eval_seed.py, recheck_seed.py) redirect their output so that /verif/evidence only ever
+    # holds what the registered commands wrote about /repo itself
+    d = os.environ.get("VERIF_EVIDENCE_DIR") or os.path.join(env.VERIF_DIR, "evidence")
     os.makedirs(d, exist_ok=True)
     doc = {
         "property_id": prop,
